@@ -7,6 +7,15 @@ props = [json.loads(l) for l in open(os.path.join(HERE, "properties.jsonl"))]
 
 # id -> (level, technique, level text, level note, design ref)
 CLAIMS = {
+    "C07": ("model_checking",
+            "two-run recording at EVERY Step boundary + TLC trace validation of all Steps + transparency relation evaluated by TLC (mark/cmp events)",
+            "Generated register-transparent programs are run undisturbed and with a request (NMI, IM1, IM2 even/odd, IM0 RST/CALL) "
+            "stored before every Step boundary k, enumerated exhaustively per program incl. parked on HALT; every Step of every "
+            "run is validated against the TLA+ interrupt logic (pushed word = PC at the boundary) and TLC evaluates the "
+            "transparency relation between the final states.",
+            "Programs are generated (bounded library of shapes x random bodies). Mode 0 is a known, unrepairable defect (F3): "
+            "reported as KNOWN-FINDING via the named outcome 'INT0 as-coded'; any other non-transparency is a violation.",
+            "DESIGN.md section 3 C07"),
     "C06": ("model_checking",
             "TLA+ interrupt logic (Z80Int: named acceptance/refusal outcomes) + TLC trace validation of the control-bit matrix and of request/instruction histories",
             "The complete matrix of request kind x mode x IFF1 x IFF2 x halted/running x PC/SP placement and random histories "
